@@ -39,6 +39,7 @@ const (
 	kDelete
 	kSubV
 	kSubC
+	kSubCL // Collection.Pull without backpressure, consumer stalled until every call has returned
 )
 
 type fcall struct {
@@ -62,11 +63,13 @@ func (c *fcall) coq() string {
 		return vcoq.App("FDelete", vcoq.Str(c.id), c.o.coq())
 	case kSubV:
 		return vcoq.App("FSubV", c.ro.coq())
+	case kSubCL:
+		return vcoq.App("FSubCL", c.ro.coq())
 	}
 	return vcoq.App("FSubC", c.ro.coq())
 }
 func (c *fcall) js() any {
-	m := map[string]any{"op": []string{"Value.Set", "Collection.Update", "Collection.Add", "Collection.Delete", "Value.Pull", "Collection.Pull"}[c.kind]}
+	m := map[string]any{"op": []string{"Value.Set", "Collection.Update", "Collection.Add", "Collection.Delete", "Value.Pull", "Collection.Pull", "Collection.Pull (no backpressure, reader behind)"}[c.kind]}
 	switch c.kind {
 	case kSet:
 		m["msg"], m["opts"] = jsMsg(&c.msg), c.o.js()
@@ -79,7 +82,7 @@ func (c *fcall) js() any {
 	}
 	return m
 }
-func (c *fcall) isSub() bool { return c.kind == kSubV || c.kind == kSubC }
+func (c *fcall) isSub() bool { return c.kind == kSubV || c.kind == kSubC || c.kind == kSubCL }
 
 type fout struct {
 	msg  *fmsg
@@ -95,7 +98,10 @@ type initItem struct {
 }
 
 type scenario struct {
-	vinit *fmsg
+	// a Collection.Pull opened and cancelled before the threads start: its listener is still
+	// registered with the bus (cancelled listeners are collected by a later Send)
+	cancelledSub bool
+	vinit        *fmsg
 	cinit []initItem // sorted by id
 	prog  []*fcall
 	tags  []string
@@ -124,11 +130,12 @@ type world struct {
 	mu     sync.Mutex
 	vgot   map[int][]ovchange
 	cgot   map[int][]ochange
+	lossy  map[int]<-chan *resource.CollectionChange
 	wg     sync.WaitGroup
 }
 
 func newWorld(sc *scenario) *world {
-	w := &world{vgot: map[int][]ovchange{}, cgot: map[int][]ochange{}}
+	w := &world{vgot: map[int][]ovchange{}, cgot: map[int][]ochange{}, lossy: map[int]<-chan *resource.CollectionChange{}}
 	w.ctx, w.cancel = context.WithCancel(context.Background())
 	vopts := []resource.Option{resource.WithClock(&fakeClock{})}
 	if sc.vinit != nil {
@@ -140,6 +147,19 @@ func newWorld(sc *scenario) *world {
 		if _, err := w.coll.Update(it.id, toProto(it.m), resource.WithCreateIfAbsent(), resource.WithWriteTime(time.Unix(0, it.t))); err != nil {
 			panic(err)
 		}
+	}
+	if sc.cancelledSub {
+		ctx0, cancel0 := context.WithCancel(context.Background())
+		ch0 := w.coll.Pull(ctx0, resource.WithBackpressure(true))
+		gone := make(chan struct{})
+		go func() {
+			defer close(gone)
+			for range ch0 {
+			}
+		}()
+		cancel0()
+		<-gone
+		time.Sleep(2 * time.Millisecond) // let the bus listener's own stop run
 	}
 	return w
 }
@@ -174,6 +194,16 @@ func (w *world) exec(t int, c *fcall) fout {
 				w.mu.Unlock()
 			}
 		}()
+		return fout{}
+	case kSubCL:
+		opts := []resource.ReadOption{resource.WithUpdatesOnly(c.ro.updatesOnly)}
+		if c.ro.hasMask {
+			opts = append(opts, resource.WithReadMask(maskOf(c.ro.mask)))
+		}
+		ch := w.coll.Pull(w.ctx, opts...)
+		w.mu.Lock()
+		w.lossy[t] = ch
+		w.mu.Unlock()
 		return fout{}
 	case kSubC:
 		ch := w.coll.Pull(w.ctx, c.ro.opts()...)
@@ -218,12 +248,37 @@ func (w *world) finish(r *runResult) {
 		w.val.Set(toProto(fmsg{9001, 9001, 9001}), st)
 		w.val.Set(toProto(fmsg{9002, 9002, 9002}), st)
 	}
-	if len(w.cgot) > 0 {
+	if len(w.cgot) > 0 || len(w.lossy) > 0 {
 		w.coll.Update("zz", toProto(fmsg{9001, 9001, 9001}), resource.WithCreateIfAbsent(), st)
 		w.coll.Update("zz", toProto(fmsg{9002, 9002, 9002}), resource.WithCreateIfAbsent(), st)
 	}
+	// the readers that were behind catch up now: everything up to the (merged) sentinel
+	w.mu.Lock()
+	lossy := w.lossy
+	w.mu.Unlock()
+	drained := map[int][]ochange{}
+	for t, ch := range lossy {
+		out := []ochange{}
+	drain:
+		for {
+			select {
+			case e, ok := <-ch:
+				if !ok || e.ChangeTime.UnixNano() == sentinelTime {
+					break drain
+				}
+				out = append(out, ochange{id: e.Id, t: e.ChangeTime.UnixNano(), kind: kindCode(e.ChangeType), old: fromProto(e.OldValue), new_: fromProto(e.NewValue), seed: e.SeedValue, last: e.LastSeedValue})
+			case <-time.After(stepTimeout):
+				r.err = fmt.Errorf("the sentinel never reached the subscriber without backpressure of thread %d", t)
+				break drain
+			}
+		}
+		drained[t] = out
+	}
 	w.mu.Lock()
 	r.vstreams, r.cstreams = map[int][]ovchange{}, map[int][]ochange{}
+	for t, l := range drained {
+		r.cstreams[t] = l
+	}
 	for t, l := range w.vgot {
 		out := []ovchange{}
 		for _, e := range l {
@@ -379,9 +434,13 @@ func coqNats(l []int) string {
 
 func emitCase(o *vcoq.Out, sc *scenario, r *runResult, extraTags []string) {
 	if r.err != nil {
+		class := "gate-timeout"
+		if strings.HasPrefix(r.err.Error(), "the sentinel") {
+			class = "subscriber-cut-off"
+		}
 		o.Directs = append(o.Directs, vcoq.Direct{
 			What:   "forced schedule could not be executed on the implementation: " + r.err.Error(),
-			Class:  "gate-timeout",
+			Class:  class,
 			Replay: map[string]any{"program": jsProg(sc), "schedule": r.sched},
 		})
 		return
@@ -519,6 +578,9 @@ var collTmpls = []tmpl{
 	}},
 	{"delete-expected", func(t int, b int64) *fcall {
 		return &fcall{kind: kDelete, id: "a", o: &fwo{expected: &fmsg{1, 0, 0}}}
+	}},
+	{"delete-check", func(t int, b int64) *fcall {
+		return &fcall{kind: kDelete, id: "a", o: &fwo{check: &chk{kind: 0, f: fa, k: 1, code: 9}}}
 	}},
 	{"delete-allow-missing", func(t int, b int64) *fcall {
 		return &fcall{kind: kDelete, id: "a", o: &fwo{allowMissing: true, time: ip(700 + int64(t))}}
@@ -699,6 +761,47 @@ func genC03(o *vcoq.Out, r *vcoq.Rand, tier string) error {
 			})
 		}
 		emitCase(o, ps.sc, rr, []string{"lock-held-probe"})
+	}
+	// a subscriber WITHOUT backpressure whose reader is behind (takes nothing until every call has
+	// returned, then drains): what the bus hands to mergeCollectionExcess must be an edit script
+	// relative to the seed, or merged changes cancel wrongly (ADD already in the seed + REMOVE)
+	lossySpecs := []struct {
+		present bool
+		writers []string
+		ro      int
+	}{
+		{false, []string{"add", "delete-allow-missing"}, 0},
+		{false, []string{"upsert", "delete-check"}, 1},
+		{true, []string{"delete-expected", "add"}, 0},
+		{true, []string{"upsert"}, 0},
+		{true, []string{"upsert-delta", "update-other-id"}, 2},
+	}
+	for _, ls := range lossySpecs {
+		sc := &scenario{cinit: collInit(ls.present)}
+		for t, n := range ls.writers {
+			sc.prog = append(sc.prog, mkCall(ct(n), t, base))
+		}
+		ro := roVariants[ls.ro]
+		sc.prog = append(sc.prog, &fcall{kind: kSubCL, ro: &ro, name: "pull-lossy"})
+		sc.tags = []string{"lossy-reader-behind", "writers:" + strings.Join(ls.writers, "+")}
+		exploreAll(sc, 0, func(rr *runResult) { emitCase(o, sc, rr, []string{"exhaustive"}) })
+	}
+	// a subscription opened while a Send is in flight (the publisher parked after it has copied the
+	// listener list) on a bus that still holds a cancelled listener: the new listener must survive
+	// the collection of the cancelled one and receive the next write
+	for _, lossy := range []bool{false, true} {
+		sub := subCall(false, roVariants[0])
+		if lossy {
+			ro := roVariants[0]
+			sub = &fcall{kind: kSubCL, ro: &ro, name: "pull-lossy"}
+		}
+		sc := &scenario{cancelledSub: true, cinit: collInit(true),
+			prog: []*fcall{mkCall(ct("upsert"), 0, base), sub, mkCall(ct("update-other-id"), 2, base)},
+			tags: []string{"subscribe-during-send", fmt.Sprintf("lossy:%v", lossy)}}
+		blocked := false
+		pr := probe{at: 2, holder: 0, other: 1, point: "bus.send.snapshot", blocked: &blocked}
+		rr := runScheduleProbe(sc, []int{0, 0}, lowest, &pr)
+		emitCase(o, sc, rr, []string{"targeted"})
 	}
 	// sampled: up to three writers and two subscribers
 	n := 60
